@@ -24,7 +24,9 @@ CHECK = dict(
                  "z3 (from /verif/.deps) evaluates the path constraints under a concrete input: registers and "
                  "memory bytes are substituted and the formula is simplified to true/false; inputs for which "
                  "it does not reduce are counted and skipped",
-                 "solutions with has_loop are counted and skipped (none on loop-free graphs)"],
+                 "solutions with has_loop are counted and skipped (none on loop-free graphs)",
+                 "memory cells are used as target elements only when their address is built from never-assigned "
+                 "pointers (the address of a target element is not tracked by the dependency graph)"],
     timeout={"quick": 900, "thorough": 5400},
     deps=True,
     technique="runtime monitoring: slice emulation vs concrete execution of the full blocks along the history",
@@ -33,6 +35,7 @@ CHECK = dict(
 N_VAL = 4
 N_INPUTS = 6
 MAX_SOLUTIONS = 24
+CASE_CPU_SECONDS = 120     # CPU time (ITIMER_PROF), not wall-clock
 
 
 def shards(tier, seed, scale):
@@ -126,6 +129,15 @@ class Case(object):
     pass
 
 
+def fmt_block(blk):
+    """block text with explicit assignblock (line) numbers"""
+    out = ["%s:" % blk.loc_key]
+    for i, ab in enumerate(blk):
+        for d, src in ab.items():
+            out.append("  [%d] %s = %s" % (i, d, src))
+    return "\n".join(out)
+
+
 def mems_of(expr, out):
     def cb(x):
         if x.is_mem():
@@ -135,34 +147,63 @@ def mems_of(expr, out):
     return out
 
 
-def narrowed_by_simplification(case, mode, sol, res, elt, h_rev, mkenv, want, hook):
-    """classifier of a value mismatch: (1) the slice works on a memory read narrower than the accesses of
-    the program, and (2) the dependency graph without apply_simp, same target and history, gives the
-    value of the full blocks"""
-    from miasm.analysis.depgraph import DependencyGraph
-    from vf import refsem
-    prog_sizes = set()
+def has_narrow_mem(case, sol, exprs):
+    """the solution works on a memory read that does not occur (same pointer, same size) in the program"""
+    prog = set()
     for blk in case.ircfg.blocks.values():
         for ab in blk:
             for d, src in ab.items():
                 for m in mems_of(src, mems_of(d, set())):
-                    prog_sizes.add((m.ptr, m.size))
+                    prog.add((m.ptr, m.size))
     seen = set()
-    for v in res.values():
+    for v in exprs:
         mems_of(v, seen)
     for e in sol.unresolved:
         mems_of(e, seen)
     for node in sol.relevant_nodes:
         mems_of(node.element, seen)
-    if not any((m.ptr, m.size) not in prog_sizes for m in seen):
+    return any((m.ptr, m.size) not in prog for m in seen)
+
+
+def nosimp_solutions(case, mode, h_rev):
+    """solutions of the same target with apply_simp=False and the same history (or the same lines)"""
+    from miasm.analysis.depgraph import DependencyGraph
+    dg = DependencyGraph(case.ircfg, implicit=(mode == "implicit"), apply_simp=False)
+    sols = list(dg.get(case.target_loc, set(case.elements), case.line_nb, case.heads))
+    same = [s2 for s2 in sols if list(s2.history[::-1]) == list(h_rev)]
+    if same:
+        return same
+    # DependencyGraph.get reports only one of several paths that lead to the same dependencies: accept a
+    # solution found along another path when all the lines it uses lie on the history at hand
+    return [s2 for s2 in sols if set(n.loc_key for n in s2.relevant_nodes) <= set(h_rev)]
+
+
+def narrowed_by_simplification(case, mode, sol, res, elt, h_rev, mkenv, want, hook):
+    """classifier of a value mismatch: (1) the slice works on a memory read narrower than the accesses of
+    the program, and (2) the dependency graph without apply_simp, same target and history, gives the
+    value of the full blocks"""
+    from vf import refsem
+    if not has_narrow_mem(case, sol, list(res.values())):
         return False
     try:
-        dg = DependencyGraph(case.ircfg, implicit=(mode == "implicit"), apply_simp=False)
-        for sol2 in dg.get(case.target_loc, set(case.elements), case.line_nb, case.heads):
-            if list(sol2.history[::-1]) != list(h_rev):
-                continue
+        for sol2 in nosimp_solutions(case, mode, h_rev):
             res2 = sol2.emul(case.ctx.lifter)
             if refsem.evaluate(res2[elt], mkenv(), hook) == want:
+                return True
+    except Exception:
+        return False
+    return False
+
+
+def narrowed_constraints(case, sol, h_rev, env_factory, follows):
+    """same classifier for a path-constraint mismatch"""
+    if not has_narrow_mem(case, sol, []):
+        return False
+    try:
+        for sol2 in nosimp_solutions(case, "implicit", h_rev):
+            sol2.emul(case.ctx.lifter)
+            holds2 = z3_holds(list(sol2._solver.assertions()), env_factory(), case.regs_by_name)
+            if holds2 is not None and holds2 == follows:
                 return True
     except Exception:
         return False
@@ -213,7 +254,7 @@ def check_values(rec, mode, kind, sol, res, case, h_rev, wit):
                              elt, common.short(res[elt], 300), got, want, [str(l) for l in h_rev]),
                          dict(wit, regs={str(k): hex(x) for k, x in base.items()}, mem_seed=env0.seed,
                               history=[str(l) for l in h_rev],
-                              slice=[str(sol.irblock_slice(case.ircfg.blocks[l])) for l in h_rev]))
+                              slice=[fmt_block(sol.irblock_slice(case.ircfg.blocks[l])) for l in h_rev]))
                 return False
             if got != want:
                 rec.fail("%s: emul() of the slice differs from the full blocks along the history" % mode,
@@ -221,7 +262,7 @@ def check_values(rec, mode, kind, sol, res, case, h_rev, wit):
                              elt, common.short(res[elt], 300), got, want, [str(l) for l in h_rev]),
                          dict(wit, regs={str(k): hex(x) for k, x in base.items()}, mem_seed=env0.seed,
                               history=[str(l) for l in h_rev],
-                              slice=[str(sol.irblock_slice(case.ircfg.blocks[l])) for l in h_rev]))
+                              slice=[fmt_block(sol.irblock_slice(case.ircfg.blocks[l])) for l in h_rev]))
                 return False
     return True
 
@@ -260,6 +301,14 @@ def check_constraints(rec, kind, sol, case, h_rev, wit):
             w = dict(wit, regs={str(a): hex(b) for a, b in base.items()}, mem_seed=env0.seed,
                      history=[str(l) for l in h_rev], concrete_path=[str(l) for l in r.path],
                      constraints=[common.short(a, 400) for a in assertions])
+        if w is not None and holds != follows and narrowed_constraints(
+                case, sol, h_rev, lambda: refsem.Env(ids=dict(base), seed=env0.seed, locs=case.locmap), follows):
+            rec.fail("apply_simp rewrites a slice of a memory read into a narrower read, the word-wide "
+                     "store is no longer matched syntactically",
+                     "implicit: path constraints are %s while the execution %s the history %s; the constraints "
+                     "obtained with apply_simp=False agree with the execution" % (
+                         holds, "follows" if follows else "leaves", [str(l) for l in h_rev]), w)
+            return
         if holds and not follows:
             rec.fail("implicit: path constraints hold but the execution leaves the history",
                      "history %s, concrete path %s" % ([str(l) for l in h_rev], [str(l) for l in r.path]), w)
@@ -359,7 +408,7 @@ def one_graph(rec, rng, ctxs, i):
     if any(v > 1 for v in indeg.values()):
         rec.count("graphs_with_join")
     case = make_case(rng, ctx, ircfg)
-    blocks_w = [str(ircfg.blocks[l]) for l in locs]
+    blocks_w = [fmt_block(ircfg.blocks[l]) for l in locs]
     shape_key = "|".join(";".join(sorted("%s<-%s" % (str(d) if d.is_id() else "M", exprgen.shape(s))
                                          for ab in ircfg.blocks[lk] for d, s in ab.items())) for lk in locs)
     pool = gen.pure + [gen.derived] + ctx.flags
@@ -396,7 +445,7 @@ def one_lifted(rec, rng, i):
     regs = ctx.lifter.arch.regs
     pool = [regs.EAX, regs.ECX, regs.EDX, regs.EBX, regs.zf, regs.cf, regs.nf, regs.of]
     run_targets(rec, rng, case, locs, head, pool, "lifted",
-                dict(kind="lifted x86_32", asm=text), "L|" + text)
+                dict(kind="lifted x86_32", asm=text, blocks=[fmt_block(ircfg.blocks[l]) for l in locs]), "L|" + text)
     if i % 5 == 0:
         rec.sample(dict(asm=text), limit=2)
 
@@ -405,17 +454,29 @@ def run_shard(params, rec):
     common.quiet()
     from vf import irgen
     rng = common.rng_for(params)
+    from vf.models import cpulimit
+    cpulimit.install()
     ctxs = [irgen.Ctx("x86_32"), irgen.Ctx("x86_64")]
     for i in range(params["n"]):
-        one_graph(rec, rng, ctxs, i)
+        try:
+            with cpulimit.cpu_limit(CASE_CPU_SECONDS):
+                one_graph(rec, rng, ctxs, i)
+        except cpulimit.CpuTimeout:
+            rec.count("case_cpu_timeout")       # never a verdict; see floors
     for i in range(params.get("n_lift", 0)):
-        one_lifted(rec, rng, i)
+        try:
+            with cpulimit.cpu_limit(CASE_CPU_SECONDS):
+                one_lifted(rec, rng, i)
+        except cpulimit.CpuTimeout:
+            rec.count("case_cpu_timeout")
 
 
 def floors(tier, counters, evaluations):
     miss = []
     g = max(1, counters.get("graphs", 0))
     lp = max(1, counters.get("lifted_programs", 0))
+    if counters.get("case_cpu_timeout", 0) > 0.01 * (g + lp):
+        miss.append("more than 1%% of the cases ran out of CPU time (%d)" % counters.get("case_cpu_timeout", 0))
     for mode in ("explicit", "explicit-nosimp", "implicit"):
         if counters.get("solutions:random:" + mode, 0) < 2 * g:
             miss.append("%s: fewer than 2 solutions per random graph" % mode)
